@@ -50,22 +50,28 @@ RInit(r, w, h) ==
     /\ curRead = NoneYet /\ curWrite = NoneYet /\ curBal = NoneYet
     /\ phase = 0
 
-\* (a) (e)
-ReadOK(seq) ==
-    LET nh == Len(UsableHints)
-        hs == SubSeq(seq, 1, nh)
-        rs == SubSeq(seq, nh + 1, Len(seq))
-    IN /\ Len(seq) = nh + Len(ref)
-       /\ \A x \in Range(hs) \cup Range(UsableHints) :
-             Cardinality({i \in DOMAIN hs : hs[i] = x}) = Cardinality({i \in DOMAIN UsableHints : UsableHints[i] = x})
-       /\ rs = ref
+\* (a) (e): some prefix consists of usable hint targets and names every one of them (repeated hints
+\* may be collapsed), and the rest is the reference order, from which services already tried as
+\* hints may be left out (the statement is silent on duplicates)
+IsSubSeqOfRef(rs) == /\ IsInjective(rs) /\ Range(rs) \subseteq Range(ref)
+                     /\ rs = Restrict(ref, Range(rs))
+ReadSplit(seq, k) ==
+    LET hs == SubSeq(seq, 1, k)
+        rs == SubSeq(seq, k + 1, Len(seq))
+    IN /\ Range(hs) = Range(UsableHints)
+       /\ Len(hs) <= Len(UsableHints)
+       /\ IsSubSeqOfRef(rs)
+       /\ Range(ref) \ Range(UsableHints) \subseteq Range(rs)
+ReadOK(seq) == \E k \in 0 .. Len(seq) : ReadSplit(seq, k)
+\* the part of a read sequence that follows the hints (longest suffix that fits)
+ReadRest(seq) == LET k == CHOOSE k \in 0 .. Len(seq) : ReadSplit(seq, k) IN SubSeq(seq, k + 1, Len(seq))
 
 Read(seq) == /\ ReadOK(seq)
              \* (d) relative order of the services present before and after
              /\ prevRead # <<>> =>
                   LET common == Range(ref) \cap Range(prevRead) IN
-                  Restrict(SubSeq(seq, Len(UsableHints) + 1, Len(seq)), common) = Restrict(prevRead, common)
-             /\ curRead' = SubSeq(seq, Len(UsableHints) + 1, Len(seq))
+                  Restrict(ReadRest(seq), common) = Restrict(prevRead, common)
+             /\ curRead' = ReadRest(seq)
              /\ UNCHANGED <<ref, writable, hints, prevRead, prevWrite, prevBal, curWrite, curBal, phase>>
 
 \* (b)
